@@ -25,16 +25,25 @@ macro_rules | `(tactic| keep_prim) => `(tactic| first
   | exact keep_resizeMemRange ‹_› _ _
   | exact keep_getMemoryInputAndOutRanges ‹_› | exact keep_popExtcallTarget ‹_› | exact keep_extcallInput ‹_›)
 
+theorem keep_rebase {s0 s : IState} {α} {Q : α → IState → Prop} {e : Exec α} (h : Kept s0 s) (hk : Keep s Q e) :
+    Keep s0 Q e := by
+  cases hk with
+  | ok h' hq => exact .ok (h.trans h') hq
+  | halt h' => exact .halt (h.trans h')
+  | fault => exact .fault
+
 /-- `extcall_gas_calc`: a granted gas limit has been paid -/
 theorem keep_extcallGasCalc (h : Kept s0 s) (r : HostResp) (tv : Bool) :
     Keep s0 (fun g s' => ∀ gl, g = some gl → s'.gas.remaining + gl ≤ s.gas.remaining) (extcallGasCalc r tv s) := by
+  refine keep_rebase h ?_
+  have h := Kept.refl s
   unfold extcallGasCalc
   refine keep_bind (keep_requireSome h r) (fun _ s1 h1 _ => ?_)
   refine keep_bind (keep_gasCharge h1 _) (fun _ s2 h2 hq2 => ?_)
   refine keep_bind (keep_getS h2) (fun x s3 h3 hx => ?_)
   obtain ⟨rfl, rfl⟩ := hx
   (try dsimp only)
-  have hle : s3.gas.remaining ≤ s.gas.remaining := by omega
+  have hle : s3.gas.remaining ≤ s.gas.remaining := h3.rem
   by_cases hc : U64ops.saturatingSub s3.gas.remaining (max (s3.gas.remaining / 64) 5000) < GasCalc.MIN_CALLEE_GAS
   · rw [if_pos hc]
     refine keep_bind (Q := T) (by keep_prim) (fun _ s4 h4 _ => ?_)
@@ -45,7 +54,7 @@ theorem keep_extcallGasCalc (h : Kept s0 s) (r : HostResp) (tv : Bool) :
     cases hg
     omega
 
-theorem ext_post {α} (h : Kept s0 s) (r : HostResp) (tv : Bool) (mk : Nat → IState → CallInputs)
+theorem ext_post (h : Kept s0 s) (r : HostResp) (tv : Bool) (mk : Nat → IState → CallInputs)
     (hmk : ∀ g x, (mk g x).gasLimit = g) :
     Keep s0 (PaidOpt s0) ((do
       let g ← extcallGasCalc r tv
@@ -75,7 +84,7 @@ theorem extcallI_kept (s : IState) : KOutcome s (extcallI s) := by
   refine hostCallOptAction_kept ?_ (fun b r s' h => ?_)
   · keep_auto
   · obtain ⟨target, input, value⟩ := b
-    exact ext_post (α := Unit) h r _ (fun gl x =>
+    exact ext_post h r _ (fun gl x =>
       { input := input, retStart := 0, retEnd := 0, gasLimit := gl, bytecodeAddress := target,
         targetAddress := target, caller := x.target, valueTransfer := true, value := value,
         scheme := .extCall, isStatic := x.isStatic, isEof := true }) (fun _ _ => rfl)
@@ -86,7 +95,7 @@ theorem extdelegatecallI_kept (s : IState) : KOutcome s (extdelegatecallI s) := 
   refine hostCallOptAction_kept ?_ (fun b r s' h => ?_)
   · keep_auto
   · obtain ⟨target, input⟩ := b
-    exact ext_post (α := Unit) h r _ (fun gl x =>
+    exact ext_post h r _ (fun gl x =>
       { input := input, retStart := 0, retEnd := 0, gasLimit := gl, bytecodeAddress := target,
         targetAddress := x.target, caller := x.caller, valueTransfer := false, value := x.callValue,
         scheme := .extDelegateCall, isStatic := x.isStatic, isEof := true }) (fun _ _ => rfl)
@@ -97,7 +106,7 @@ theorem extstaticcallI_kept (s : IState) : KOutcome s (extstaticcallI s) := by
   refine hostCallOptAction_kept ?_ (fun b r s' h => ?_)
   · keep_auto
   · obtain ⟨target, input⟩ := b
-    exact ext_post (α := Unit) h r _ (fun gl x =>
+    exact ext_post h r _ (fun gl x =>
       { input := input, retStart := 0, retEnd := 0, gasLimit := gl, bytecodeAddress := target,
         targetAddress := target, caller := x.target, valueTransfer := true, value := 0,
         scheme := .extStaticCall, isStatic := true, isEof := true }) (fun _ _ => rfl)
